@@ -6,14 +6,15 @@ namespace vo {
 enum { C_SETKEY, C_CLAIM_SET, C_CLAIM_DEL, C_LEEWAY, C_SETCB, C_CLOCK, C_VERIFY, C_ERRCLR, C_N };
 static const char *CN[] = {"setkey", "claim_set", "claim_del", "time_leeway", "setcb", "clock", "verify", "error_clear"};
 struct COp { int k = 0, a = 0, b = 0; };
-enum { VCB_NONE, VCB_SELECT, VCB_FAIL, VCB_MUTATE, VCB_N };
-static const char *VCBN[] = {"none", "selects-key+alg", "fails", "mutates-token"};
+enum { VCB_NONE, VCB_SELECT, VCB_FAIL, VCB_MUTATE, VCB_KID, VCB_N };
+static const char *VCBN[] = {"none", "selects-key+alg", "fails", "mutates-token", "selects-key-by-kid"};
 struct VCtx { int kind; };
 static int checker_cb(jwt_t *jwt, jwt_config_t *c) {
   VCtx *x = (VCtx *)c->ctx;
   switch (x->kind) {
   case VCB_SELECT: c->key = keytab()[1].lk->item; c->alg = JWT_ALG_HS256; return 0;
   case VCB_FAIL: return 1;
+  case VCB_KID: { jwt_value_t v = val_get(JWT_VALUE_STR, "kid"); if (jwt_header_get(jwt, &v) == JWT_VALUE_ERR_NONE && v.str_val && !strcmp(v.str_val, "known")) { c->key = keytab()[1].lk->item; c->alg = JWT_ALG_HS256; } return 0; }   // per-token choice: must not stick to the checker
   case VCB_MUTATE: { jwt_value_t v = val_str("zz", "1", 1); jwt_claim_set(jwt, &v); jwt_header_del(jwt, "typ"); return 0; }
   }
   return 0;
@@ -40,6 +41,8 @@ static void init_tokens() {
   TOKENS.push_back({"valid-none", b64u_enc("{\"alg\":\"none\"}") + "." + b64u_enc(good) + "."});
   TOKENS.push_back({"NULL", ""});
   TOKENS.push_back({"empty", ""});
+  TOKENS.push_back({"valid-hs256-kid-known", ref_token(oct, JWT_ALG_HS256, "{\"alg\":\"HS256\",\"kid\":\"known\"}", good)});
+  TOKENS.push_back({"valid-hs256-kid-unknown", ref_token(oct, JWT_ALG_HS256, "{\"alg\":\"HS256\",\"kid\":\"other\"}", good)});
   TOKENS.push_back({"valid-hs256-noclaims", ref_token(oct, JWT_ALG_HS256, H("HS256"), "{}")});
 }
 static const int CKEYS[] = {-1, 0, 1, 3, 4, 2, 5};
